@@ -1,9 +1,9 @@
 """C22 — array reductions and scans equal NumPy for every chunking and split_every.
 
-Model:    lean/DaskModel/Model/TreeReduce.lean (K1: partition_all / partial_reduce / _tree_reduce, the
+Model:    lean/DaskModel/Model/ArrayReduce.lean (K1: partition_all / partial_reduce / _tree_reduce, the
           per-block chunk/combine/aggregate functions, arg-reductions, top-k) and
           lean/DaskModel/Model/BlockScan.lean (K2: sequential cumreduction, Blelloch sweeps).
-Theorems: lean/DaskModel/Props/C22.lean (+ Lemmas/TreeReduce.lean, Lemmas/BlockScan.lean)
+Theorems: lean/DaskModel/Props/C22.lean (+ Lemmas/ArrayReduce.lean, Lemmas/BlockScan.lean)
 Tie:      function level — (plan) the key structure of every partial_reduce layer of the real graph vs
           `treePlan`; (depth) dask's float depth formula satisfies the theorem hypothesis n ≤ k^depth;
           (blsched) the binop tasks of prefixscan_blelloch's graph vs `schedule`, and `schedOk`;
@@ -24,7 +24,7 @@ from props import _reduce_util as U
 PROP = "C22"
 READY = True
 DRIVER = "dm_reduce"
-LEAN_MODULES = ["DaskModel.Props.C22", "DaskModel.Lemmas.TreeReduce", "DaskModel.Lemmas.BlockScan"]
+LEAN_MODULES = ["DaskModel.Props.C22", "DaskModel.Lemmas.ArrayReduce", "DaskModel.Lemmas.BlockScan"]
 CASE_TIMEOUT_S = 20
 LEVEL_TEXT = (
     "Proved in Lean 4 (no size bound): K1 treeReduce_eq_fold — for every block list, every group size k "
